@@ -85,7 +85,9 @@ def run_program(tier, idx, prog=None, plan=None, seed=None):
         def enc_kw(k): return repr({n: enc_v(v) for n, v in k.items()})
         def dec_kw(sx): return {n: dec_v(v) for n, v in eval(sx).items()}
         if plan is not None: ncalls = len(plan)
+        npo_names = set(sk.PNAMES[:min(prog.get('nposonly', 0), prog['npos'])])
         for ci in range(ncalls):
+            nviol0 = len(viol)
             if plan is not None:
                 ign = tuple(eval(plan[ci]['ign']))
                 group = [tuple([g[0], dec_args(g[1]), dec_kw(g[2])] + ([tuple(g[3])] if len(g) > 3 and g[3] is not None else [])) for g in plan[ci]['group']]
@@ -102,7 +104,7 @@ def run_program(tier, idx, prog=None, plan=None, seed=None):
                 group.append(('respell', a2, k2))
             valid = True
             sel0 = selected(prog, ign, inst_first)
-            try: sk.full_bind(f, args, kw); ba0 = sig.bind(*args, **kw)
+            try: sk.full_bind(f, args, kw); ba0 = sk.sbind(sig, args, kw)
             except (TypeError, AttributeError, ValueError): valid = False
             if valid and plan is not None:
                 tags['valid'] += 1
@@ -118,7 +120,7 @@ def run_program(tier, idx, prog=None, plan=None, seed=None):
                     new = r.choice([v for v in sk.CALL_POOL if not (v == old)])
                     if kind == 'a': a3[pos] = new
                     else: k3[pos] = new
-                    try: sk.full_bind(f, a3, k3); sig.bind(*a3, **k3)
+                    try: sk.full_bind(f, a3, k3); sk.sbind(sig, a3, k3)
                     except (TypeError, ValueError): continue
                     group.append(('mutate', a3, k3, (kind, pos)))
                 # a default left implicit vs the same parameter given another value (the sibling's default, when there is a sibling)
@@ -130,7 +132,7 @@ def run_program(tier, idx, prog=None, plan=None, seed=None):
                     if other:
                         a5, k5 = list(args), dict(kw, **{p.name: r.choice(other)})
                         try:
-                            sk.full_bind(f, a5, k5); sig.bind(*a5, **k5)
+                            sk.full_bind(f, a5, k5); sk.sbind(sig, a5, k5)
                             group.append(('mutate', a5, k5, ('k', p.name)))
                             tags['default-vs-given'] += 1
                         except (TypeError, ValueError): pass
@@ -144,7 +146,7 @@ def run_program(tier, idx, prog=None, plan=None, seed=None):
                         try:
                             n6 = sk.full_bind(f, a6, k6)
                             if n6[0] == sk.full_bind(f, args, kw)[0] and not n6[2]:      # same named binding, only tail/keywords moved
-                                sig.bind(*a6, **k6)
+                                sk.sbind(sig, a6, k6)
                                 group.append(('tailkw', a6, k6))
                         except (TypeError, ValueError): pass
                 # typed clause: ==-equal values of different type (1, 1.0, True), also swapped across two
@@ -159,14 +161,14 @@ def run_program(tier, idx, prog=None, plan=None, seed=None):
                     if kind == 'a': a4[pos] = new
                     else: k4[pos] = new
                     try:
-                        sk.full_bind(f, a4, k4); sig.bind(*a4, **k4)
+                        sk.full_bind(f, a4, k4); sk.sbind(sig, a4, k4)
                         group.append(('retype', a4, k4, (kind, pos)))
                     except (TypeError, ValueError): pass
                 names2 = [n for n in sk.PNAMES[:prog['npos']] if n in sel0['remaining']][:2]
                 if len(names2) == 2 and not inst_first:
                     try:
                         ka, kb = {names2[0]: 1, names2[1]: 1.0}, {names2[1]: 1, names2[0]: 1.0}
-                        sk.full_bind(f, [], ka); sk.full_bind(f, [], kb); sig.bind(**ka); sig.bind(**kb)
+                        sk.full_bind(f, [], ka); sk.full_bind(f, [], kb); sk.sbind(sig, [], ka); sk.sbind(sig, [], kb)
                         group.append(('swapA', [], ka)); group.append(('swapB', [], kb))
                     except (TypeError, ValueError): pass
             else:
@@ -197,7 +199,7 @@ def run_program(tier, idx, prog=None, plan=None, seed=None):
                 except (TypeError, ValueError):
                     rec['bind'] = None
                 try:
-                    ba = sig.bind(*a, **k); ba.apply_defaults()
+                    ba = sk.sbind(sig, a, k); ba.apply_defaults()
                     rec['can'] = sk.canonical_binding(sig, ba)
                 except (TypeError, AttributeError):
                     rec['can'] = None
@@ -344,6 +346,11 @@ def run_program(tier, idx, prog=None, plan=None, seed=None):
                                                          kmk, kmo, ign, (base['args'], base['kw']), (rec['args'], rec['kw']), eb['key']), item=dict(ci=rec['ci'])))
                                     if ign:
                                         viol.append(dict(viol[-1], prop='C11', sig=dict(viol[-1]['sig'], kind='non-ignored-argument-does-not-discriminate')))
+            # positional-only parameters: which violations of this call group involve a keyword that shares such a parameter's name
+            po_kw = bool(npo_names and (any(n in npo_names for g in group for n in g[2]) or
+                                        (prog['kind'].startswith('partial') and prog['p_kw'] and prog['p_kwname'] in npo_names)))
+            for v in viol[nviol0:]:
+                v['sig'] = dict(v['sig'], posonly=bool(npo_names), posonly_name_as_keyword=po_kw)
         # ---------------- model lines
         names_sorted = sorted(set(o for o in I.objs if isinstance(o, str)))
         ty = []
@@ -371,6 +378,10 @@ def mutated_selected(prog, sel, kind, pos, args, inst_first):
         if not prog['varargs']: return None
         return sel['star'] or (i in sel['idx'])
     name = pos
+    if name in sk.PNAMES[:min(prog.get('nposonly', 0), prog['npos'])]:
+        # a keyword that merely shares the name of a positional-only parameter is an extra keyword (it lands in **kw)
+        if not prog['varkw'] or sel['dstar'] or sel['idx'] or name in sel['names']: return None
+        return False
     if name in rem:
         return (name in sel['names']) or (rem.index(name) in sel['idx'])
     if name in sk.KWONLY[:prog['nkw']] or name in sk.PNAMES[:prog['npos']]:
